@@ -141,6 +141,19 @@ theorem C39_data_roundtrip (E : Env) (sid flags : Nat) (d rest carry : Bytes)
     List.take_left, List.drop_left]
   constructor <;> first | rfl | trivial
 
+/-- **Segmentation**: every fixed-size read of the framer is an `io.ReadFull` on the connection.  On a source that
+    delivers its bytes in arbitrary chunks (one byte at a time, with empty reads, …) `ReadFull` obtains exactly the
+    first `n` bytes of the concatenation and leaves a source whose concatenation is the rest.  `readFrame` is defined
+    on that concatenation (`take32`, `take8`, `take`/`drop`), so what it returns does not depend on the chunking; the
+    one dependence of the real reader — `bufio`'s read-ahead inside the header-block window, known finding
+    `wide-window-chunking` — lies outside this list semantics and is exercised (every third case is also read one byte
+    at a time and with random cuts / empty reads / data+EOF). -/
+theorem C39_readfull_chunking (chunks : List Bytes) (n : Nat) :
+    (readFullS chunks n).1 = chunks.flatten.take n ∧ (readFullS chunks n).2.flatten = chunks.flatten.drop n :=
+  readFullS_spec chunks n
+
+example : readFullS [[1, 2], [], [3], [4, 5, 6]] 4 = ([1, 2, 3, 4], [[5, 6]]) := by decide
+
 /-- **No over-read after the fix**: a SYN_STREAM / SYN_REPLY / HEADERS frame whose declared length is smaller than
     its fixed part is rejected before a single payload byte is read (the unfixed code computed `length - 10` on
     `uint32` and let the inflater read ~4 GiB past the frame). -/
